@@ -149,14 +149,18 @@ def generate(streams: core.Streams, tier: str) -> dict:
         elif r < 0.75:
             k = s.randint(1, n)
             chosen = s.sample(names, k)
-            via = gen.pick(s, ["names", "names", "files", "dir", "mixed"])
+            via = gen.pick(s, ["names", "names", "files", "dir", "mixed", "dir_mixed", "dir_mixed"])
             reg = f"r{len(regs)}"
             ops.append({"op": "Resolve", "dst": reg, "specs": chosen, "via": via,
                         "glob_order": s.sample(range(k), k)})
             reg_model[reg] = [int(x[1:]) for x in chosen]
             regs.append(reg)
-        elif r < 0.88 and (regs or names):
+        elif r < 0.84 and (regs or names):
             ops.append({"op": "UseInBackend", "src": gen.pick(s, regs + names),
+                        "format": gen.pick(s, ["default", "alt", None])})
+        elif r < 0.92 and (regs or names):
+            # one long-lived backend object: its user pipeline is replaced, then it converts again
+            ops.append({"op": "CheckLongLived", "src": gen.pick(s, regs + names),
                         "format": gen.pick(s, ["default", "alt", None])})
         else:
             if regs or names:
@@ -201,11 +205,16 @@ def _leaves(expr: Any) -> list[str]:
     return out
 
 
+def s_pos(op: dict, n: int) -> int:
+    """position of the directory specifier among the named specifiers (decided by the scenario)"""
+    return (op["glob_order"][0] if op.get("glob_order") else 0) % (n + 1)
+
+
 def _spec_path(sc: dict, i: int, via: str, pos: int, scratch: str) -> str:
     """specifier string handed to / discovered by the resolver for spec i"""
-    if via == "names" or (via == "mixed" and pos % 2 == 0):
+    if via == "names" or (via in ("mixed", "dir_mixed") and pos % 2 == 0):
         return sc["specs"][i]["name"]
-    sub = "d" if via == "dir" else "f"
+    sub = "d" if via in ("dir", "dir_mixed") else "f"
     # file names deliberately do not sort like the names
     return os.path.join(scratch, sub, f"{'zyxwv'[i]}_{i}.yml")
 
@@ -383,7 +392,7 @@ def execute(scenario: dict) -> dict:
         # fresh-world references for every Check, before any operation is executed
         fresh: dict[int, dict] = {}
         for k, op in enumerate(sc["ops"]):
-            if op["op"] in ("Check", "CheckDirect"):
+            if op["op"] in ("Check", "CheckDirect", "CheckLongLived"):
                 st, res = core.run_in_fork(_fresh_single, (sc, env_model[op["src"]], op["format"],
                                                            op["op"] == "CheckDirect"), 15.0)
                 if st != "ok":
@@ -441,7 +450,7 @@ def execute(scenario: dict) -> dict:
                         with open(path, "w") as fh:
                             fh.write(world.dump_yaml([sc["specs"][i]]))
                         files.append(path)
-                        if via != "dir":
+                        if via not in ("dir", "dir_mixed"):
                             specs.append(path)
                 holder: dict[str, Any] = {}
 
@@ -449,14 +458,16 @@ def execute(scenario: dict) -> dict:
                     holder["o"] = resolver.resolve(specs)
                     return "resolved"
 
-                if via == "dir":
-                    specs.append(os.path.join(scratch, "d"))
+                if via in ("dir", "dir_mixed") and files:
+                    specs.insert(s_pos(op, len(specs)), os.path.join(scratch, "d") + gen.pick(Random(len(files)), ["", "/", "/*"]))
                     order = [files[j] for j in op["glob_order"] if j < len(files)]
                     rank = {p: j for j, p in enumerate(order)}
                     with world.GlobOrder(lambda found: sorted(found, key=lambda x: rank.get(str(x), 99))) as g:
                         res = world.capture(do)
                         if g.calls:
                             core.merge_counts(faults, {"reordering:directory_enumeration_order_imposed": 1})
+                elif via == "dir_mixed":
+                    res = world.capture(do)  # no files in the directory this time
                 else:
                     res = world.capture(do)
                 objs[op["dst"]] = holder.get("o", RuntimeError(str(res)))
@@ -474,12 +485,19 @@ def execute(scenario: dict) -> dict:
                     _convert(sc, cls, o, op["format"])
                     core.merge_counts(faults, {"history:operand_used_by_a_backend": 1})
                 sigparts.append(["U"])
-            elif kind in ("Check", "CheckDirect"):
+            elif kind in ("Check", "CheckDirect", "CheckLongLived"):
                 o = objs[op["src"]]
                 idx = env_model[op["src"]]
                 direct = kind == "CheckDirect"
                 if isinstance(o, Exception):
                     got: dict = world.exc_record(o)
+                elif kind == "CheckLongLived":
+                    if "long" not in objs:
+                        objs["long"] = cls(None)
+                    lb = objs["long"]
+                    lb.processing_pipeline = o
+                    got = world.capture(lambda: lb.convert(world.load_collection(_docs_rich() if sc["rich"] else _docs()), op["format"]))
+                    core.merge_counts(faults, {"history:long_lived_backend_gets_another_user_pipeline": 1})
                 elif direct:
                     got = _direct(sc, o)
                     core.merge_counts(faults, {"op:direct_use_of_pipeline_object": 1})
@@ -524,22 +542,22 @@ def _regs_used(ops: list[dict]) -> set[str]:
     for o in ops:
         if o["op"] == "Add":
             u.update(_leaves(o["expr"]))
-        elif o["op"] in ("UseInBackend", "Check", "CheckDirect"):
+        elif o["op"] in ("UseInBackend", "Check", "CheckDirect", "CheckLongLived"):
             u.add(o["src"])
     return u
 
 
 def shrink(sc: dict) -> Iterable[dict]:
     ops = sc["ops"]
-    checks = [i for i, o in enumerate(ops) if o["op"] in ("Check", "CheckDirect")]
+    checks = [i for i, o in enumerate(ops) if o["op"] in ("Check", "CheckDirect", "CheckLongLived")]
     if len(checks) > 1:
         for keep in checks:
             c = copy.deepcopy(sc)
-            c["ops"] = [o for i, o in enumerate(ops) if o["op"] not in ("Check", "CheckDirect") or i == keep]
+            c["ops"] = [o for i, o in enumerate(ops) if o["op"] not in ("Check", "CheckDirect", "CheckLongLived") or i == keep]
             yield c
     for i in reversed(range(len(ops))):
         o = ops[i]
-        if o["op"] in ("Check", "CheckDirect") and len(checks) == 1:
+        if o["op"] in ("Check", "CheckDirect", "CheckLongLived") and len(checks) == 1:
             continue
         if o["op"] in ("Add", "Resolve") and o["dst"] in _regs_used(ops[i + 1:]):
             continue
@@ -577,7 +595,7 @@ def shrink(sc: dict) -> Iterable[dict]:
                 c = copy.deepcopy(sc)
                 c["ops"][i]["via"] = "names"
                 yield c
-        if o["op"] in ("Check", "CheckDirect", "UseInBackend") and o["format"] != "default":
+        if o["op"] in ("Check", "CheckDirect", "CheckLongLived", "UseInBackend") and o["format"] != "default":
             c = copy.deepcopy(sc)
             c["ops"][i]["format"] = "default"
             yield c
